@@ -54,7 +54,7 @@ func c17Corpus(c *Ctx) {
 			{I, I},
 			{crop(0, 0, 10, 10)}, {crop(9, 9, 1, 1)}, {crop(10, 10, 0, 0)}, {crop(0, 0, 11, 1)},
 		} {
-			c17RunSeq(c, r, c17Seq{kind: kind, w: 10, h: 10, mode: "coord", cseed: 7, exact: true}, seq)
+			c17RunSeq(c, r, c17Seq{kind: kind, w: 10, h: 10, mode: "coord", cseed: 7, exact: true, bigToModel: true}, seq)
 		}
 	}
 }
@@ -65,7 +65,7 @@ func c17Views(c *Ctx) {
 	nk := len(c17Kinds)
 	ns := len(c17Sizes)
 	c.Parallel(n, 12, func(i int, r *Rng) {
-		q := c17Seq{cseed: r.U64() >> 1, exact: r.Chance(0.4)}
+		q := c17Seq{cseed: r.U64() >> 1, exact: r.Chance(0.4), bigToModel: i%c.Pick(5, 8) == 0}
 		q.kind = c17Kinds[i%nk]
 		j := i / nk
 		switch {
